@@ -384,6 +384,9 @@ impl<F: Float> Arithmetic<F> {
     /// Complexity: \\( O(1) \\)
     ///
     pub fn ci_mean(&self, confidence: Confidence) -> CIResult<Interval<F>> {
+        if self.count < 2 {
+            return Err(CIError::TooFewSamples(self.count));
+        }
         let n = self.count as f64;
         let mean = self.sample_mean().try_f64("stats.mean")?;
         let std_dev = self.sample_std_dev().try_f64("stats.std_dev")?;
